@@ -72,7 +72,7 @@ type Sched struct {
 }
 
 var (
-	active atomic.Pointer[Sched]
+	active atomic.Value // *Sched
 	byGoid sync.Map // goid -> *thread
 )
 
@@ -92,7 +92,7 @@ func goid() uint64 {
 }
 
 func self() (*Sched, *thread) {
-	s := active.Load()
+	s, _ := active.Load().(*Sched)
 	if s == nil || s.aborted.Load() {
 		return nil, nil
 	}
@@ -375,7 +375,7 @@ func RunOnce(prefix []int, horizon int, body func() interface{}) *Exec {
 	case <-unwound:
 	case <-time.After(2 * time.Second):
 	}
-	active.Store(nil)
+	active.Store((*Sched)(nil))
 	x := &Exec{Points: s.Points, Deadlock: s.Deadlock, Livelock: s.Livelock, Diverged: s.Diverged,
 		Panics: s.Panics, Blocked: s.Blocked, Log: s.Log, Steps: s.steps, Obs: obs}
 	x.Choices = make([]int, len(s.Points))
